@@ -378,7 +378,9 @@ theorem lexAct_tagreg (F : Frame inpS inpW δ) {ab ab' : Ab} {cs cw : Common} {l
           obtain ⟨t', hy, hr⟩ := optRel_some_l htag hx
           rw [hy]
           exact h.ret _ h.c rfl { h.l with tag := hr.updHash ch }
-        · exact Or.inl trivial
+        · rename_i hx
+          rw [optRel_none_l htag hx]
+          exact Or.inr ⟨rfl, fun _ => ⟨⟨h.c, h.l, h.sim, h.pc⟩, h.k⟩⟩
       · exact h.ret _ h.c rfl h.l
     · cases habs
   · simp only [Option.some.injEq] at habs; subst habs
@@ -540,13 +542,13 @@ theorem lexAct_sim (F : Frame inpS inpW δ) (hops : OpsSim env.ops inpS inpW δ 
     · split at habs
       · rename_i hP
         simp only [Option.some.injEq] at habs; subst habs
-        exact lexEmitText_sim hops hc hl hP hsim hpc hK ab.stale_noLex _
+        exact lexEmitText_sim hops hc hl hP hsim hpc hK ab.stale_noLex
       · cases habs
     · split at habs
       · rename_i hP
         simp only [Option.some.injEq] at habs; subst habs
         simp only [lexAct]
-        exact andThen_sim (lexEmitText_sim hops hc hl hP hsim hpc hK ab.stale_noLex true)
+        exact andThen_sim (lexEmitText_sim hops hc hl hP hsim hpc hK ab.stale_noLex)
           (fun ms mw hm hk => lexEmitEof_sim hops hm hk hP ab.stale_noLex)
       · cases habs
   · have hd0 : d = 0 := by
@@ -573,7 +575,7 @@ theorem lexAct_sim (F : Frame inpS inpW δ) (hops : OpsSim env.ops inpS inpW δ 
         exact lexEmitNonTag_sim (ab' := { ab.stale with P := false }) (ls := { ls with curNonTag := none })
           (lw := { lw with curNonTag := none }) (ls0 := ls) (lw0 := lw)
           hops ls.curNonTag (cs.pos + 1) hc hl hsim hpc hK ⟨rfl, rfl, rfl, rfl, rfl, rfl⟩
-          (by omega) (fun g => by cases g) rfl rfl hl.fd (Or.inl ⟨rfl, rfl⟩) ⟨rfl, rfl⟩ (Or.inr ⟨rfl, rfl⟩) true
+          (by omega) (fun g => by cases g) rfl rfl hl.fd (Or.inl ⟨rfl, rfl⟩) ⟨rfl, rfl⟩ (Or.inr ⟨rfl, rfl⟩)
       · cases habs
     case emitCurrentTokenAndEof =>
       simp only [absAct] at habs
@@ -589,7 +591,7 @@ theorem lexAct_sim (F : Frame inpS inpW δ) (hops : OpsSim env.ops inpS inpW δ 
         exact andThen_sim
           (lexEmitNonTag_sim (ls := { ls with curNonTag := none })
             (lw := { lw with curNonTag := none }) (ls0 := ls) (lw0 := lw) hops ls.curNonTag cs.pos hc hl hsim hpc hK ab.stale_noLex
-            (by omega) (fun _ => by omega) rfl rfl hl.fd (Or.inl ⟨rfl, rfl⟩) ⟨rfl, rfl⟩ (Or.inr ⟨rfl, rfl⟩) true)
+            (by omega) (fun _ => by omega) rfl rfl hl.fd (Or.inl ⟨rfl, rfl⟩) ⟨rfl, rfl⟩ (Or.inr ⟨rfl, rfl⟩))
           (fun ms mw hm hk => lexEmitEof_sim hops hm hk hPN.1 ab.stale_noLex)
       · cases habs
     case emitRawWithoutToken =>
@@ -602,7 +604,7 @@ theorem lexAct_sim (F : Frame inpS inpW δ) (hops : OpsSim env.ops inpS inpW δ 
         rw [p1, show cs.pos + δ + 1 = cs.pos + 1 + δ by omega]
         exact lexEmitNonTag_sim (ab' := { ab.stale with P := false }) (ls := ls) (lw := lw) (ls0 := ls) (lw0 := lw)
           hops none (cs.pos + 1) hc hl hsim hpc hK ⟨rfl, rfl, rfl, rfl, rfl, rfl⟩
-          (by omega) (fun g => by cases g) rfl rfl hl.fd (Or.inl ⟨rfl, rfl⟩) ⟨rfl, rfl⟩ (Or.inl ⟨rfl, rfl⟩) true
+          (by omega) (fun g => by cases g) rfl rfl hl.fd (Or.inl ⟨rfl, rfl⟩) ⟨rfl, rfl⟩ (Or.inl ⟨rfl, rfl⟩)
       · cases habs
     case emitRawWithoutTokenAndEof =>
       simp only [absAct] at habs
@@ -614,7 +616,7 @@ theorem lexAct_sim (F : Frame inpS inpW δ) (hops : OpsSim env.ops inpS inpW δ 
         rw [p1]
         exact andThen_sim
           (lexEmitNonTag_sim (ls := ls) (lw := lw) (ls0 := ls) (lw0 := lw) hops none cs.pos hc hl hsim hpc hK ab.stale_noLex
-            (by omega) (fun _ => by omega) rfl rfl hl.fd (Or.inl ⟨rfl, rfl⟩) ⟨rfl, rfl⟩ (Or.inl ⟨rfl, rfl⟩) true)
+            (by omega) (fun _ => by omega) rfl rfl hl.fd (Or.inl ⟨rfl, rfl⟩) ⟨rfl, rfl⟩ (Or.inl ⟨rfl, rfl⟩))
           (fun ms mw hm hk => lexEmitEof_sim hops hm hk hP ab.stale_noLex)
       · cases habs
     case emitTag =>
